@@ -46,6 +46,7 @@ func c06eval(r *vx.R, c c06case) {
 		return
 	}
 	r.Eval(1)
+	pollute()
 	want := gcmref.Seal(refCipher(key), nonce, pt, aad, c.Tag)
 	keepN, keepP, keepA := append([]byte{}, nonce...), append([]byte{}, pt...), append([]byte{}, aad...)
 	var got []byte
